@@ -165,9 +165,10 @@ def _work(args):
             _ENGINE = ((make_engine.__module__, make_engine.__name__, repr(eparams)), make_engine(**eparams))
         eng = _ENGINE[1]
         agg = Aggregate()
+        isolate = getattr(eng, "isolate_runs", False)
         for i in range(start, stop):
             try:
-                out = eng.run_one(i)
+                out = _isolated(eng, i) if isolate else eng.run_one(i)
             except HarnessError as e:
                 agg.harness_errors.append("run %d: %s" % (i, e))
                 continue
@@ -179,6 +180,49 @@ def _work(args):
         return agg
     finally:
         faulthandler.cancel_dump_traceback_later()
+
+
+def _isolated(eng, index):
+    """One run in a forked child of the worker: whatever state the code under test leaves behind in
+    the process dies with the child, so run i really is the same whatever ran before it (and a
+    violation that needs such left-over state can only come from a run that creates it itself)."""
+    import pickle
+
+    r, w = os.pipe()
+    pid = os.fork()
+    if pid == 0:
+        code = 0
+        try:
+            os.close(r)
+            try:
+                out = eng.run_one(index)
+                out.pop("result", None)
+                data = pickle.dumps(("ok", out), 2)
+            except HarnessError as e:
+                data = pickle.dumps(("harness", str(e)), 2)
+            except BaseException:  # noqa: B902
+                data = pickle.dumps(("crash", traceback.format_exc()), 2)
+            with os.fdopen(w, "wb") as f:
+                f.write(data)
+        except BaseException:  # noqa: B902
+            code = 3
+        finally:
+            os._exit(code)
+    os.close(w)
+    chunks = []
+    with os.fdopen(r, "rb") as f:
+        while True:
+            b = f.read(1 << 16)
+            if not b:
+                break
+            chunks.append(b)
+    os.waitpid(pid, 0)
+    if not chunks:
+        raise HarnessError("isolated run %d died without a result" % index)
+    kind, val = pickle.loads(b"".join(chunks))
+    if kind == "ok":
+        return val
+    raise HarnessError("isolated run %d: %s" % (index, val))
 
 
 def run_batch(make_engine, eparams, n_runs, chunk, budget_s, first_index=0, njobs=None, progress=None):
